@@ -305,9 +305,10 @@ def shards(tier, seed):
     items += [('macro', lo, min(mtotal, lo + mstep)) for lo in range(0, mtotal, mstep)]
     items += [('window', d, b) for d, b in window_cases(tier)]
     items += [('trunc',)]
+    items += [('capacity', d) for d in ((0, 1, 8) if tier == 'quick' else (-1, 0, 1, 4, 8, 9))]
     items += [('decoder', BOUNDS[tier]['decoder_depth'])]
     # long-running shards first
-    items.sort(key=lambda it: {'decoder': 0, 'window': 1}.get(it[0], 2))
+    items.sort(key=lambda it: {'capacity': 0, 'decoder': 1, 'window': 2}.get(it[0], 3))
     return items
 
 
@@ -331,6 +332,37 @@ def run_shard(item):
         check_text(t, res, 'window')
         res.count('window_cases')
         res.sample({'window_distance': item[1], 'block_len': item[2], 'text_len': len(t)}, limit=1)
+    elif kind == 'capacity':
+        # a text whose compressed stream is exactly 0x3d00-8+d bytes: either refused, or stored losslessly
+        from props import c04
+        _, p8png = mods()
+        # (exact stream lengths are not always reachable at an item boundary: take the nearest not above)
+        lo = 0x3d00 - 8 + item[1] - 1 if item[1] != 1 else 0x3d00 - 8 + 1
+        t = c04.comp_text_with_stream_between(lo, 0x3d00 - 8 + item[1])
+        if t is not None:
+            res.evaluations += 1
+            res.nontriv(('capacity', item[1]))
+            case = {'kind': 'capacity', 'd': item[1]}
+            try:
+                ba = p8png.get_bytes_from_code(t)
+            except Exception:
+                res.outcome(('capacity', 'refused'))
+                ba = None
+            if ba is not None:
+                if len(ba) != 0x3d00:
+                    res.violation('C05|capacity|code-area-size', 'code area for a stream of %d bytes has %d bytes (must be %d)' % (
+                        0x3d00 - 8 + item[1], len(ba), 0x3d00), case)
+                else:
+                    try:
+                        text, mode = rc.code_area_decode(bytes(ba))
+                    except Exception as e:
+                        text, mode = None, repr(e)
+                    if text != t:
+                        res.violation('C05|capacity|lossy', 'code area (%s) for a %d-byte stream does not decode to the text' % (
+                            mode, 0x3d00 - 8 + item[1]), case)
+                    else:
+                        res.outcome(('capacity', 'stored'))
+            res.sample({'capacity_stream_len': 0x3d00 - 8 + item[1], 'text_len': len(t)}, limit=1)
     elif kind == 'trunc':
         for t in truncation_texts():
             check_text(t, res, 'trunc')
@@ -344,6 +376,9 @@ def run_shard(item):
 def replay(case):
     res = ShardResult()
     compress, _ = mods()
+    if case['kind'] == 'capacity':
+        res.merge(run_shard(('capacity', case['d'])))
+        return [(s, v[0]) for s, v in res.violations.items()]
     if case['kind'] == 'text':
         t = case['text']
         check_text(t, res, classify_family(t))
